@@ -166,7 +166,7 @@ def run_shard(ctx):
                          modelir.programs(discrete=discrete, force=force), st.integers(0, 2**30))
 
     n = P["n_programs"]
-    forces = [None, "scan", "vmap", "cond", "vdist", "call", "detcall"]
+    forces = [None, "scan", "vmap", "cond", "vdist", "call", "detcall", "condm"]
     drive(ctx, strat(False, forces[ctx.shard % len(forces)]), n - n // 3, one, "cont")
     drive(ctx, strat(True, forces[(ctx.shard + 1) % len(forces)]), n // 3, one, "disc")
     nk = modelir.NEST_KINDS  # combinators applied directly to combinators
